@@ -2,7 +2,7 @@ CONSTANTS
   Threads = {"t1", "t2", "t3"}
   ChanCap = 2
   MaxReq = 3
-  PopRule = "checked"
+  PopRule = "unchecked"
 SPECIFICATION Spec
-INVARIANT WedgeUnreachable
+INVARIANT NoPanic
 CHECK_DEADLOCK FALSE
